@@ -1042,3 +1042,45 @@ Section Breach.
       rewrite Hres in Hx. destruct i as [|[|[|i]]]; cbn [nth_error] in Hx; inversion Hx; subst x; exact Hab.
   Qed.
 End Breach.
+
+(* ------------------------------------------------------------------------------------------ *)
+(* the hypothesis of accepted_then_watched_or_gone on the locator cache, discharged from the C19 refinement:
+   a cache of capacity n >= 1 that represents a window of blocks (TxIndexProofs.RepW: the invariant C19 proves of every
+   index built and updated under the chain discipline) and is updated with a block whose hash is fresh and whose
+   keys are distinct and not in the window (valid_op: the chain discipline; in particular the evicted block shares
+   no key with it) finds every locator of that block *)
+Lemma lastn_snoc {A} n (l : list A) (x : A) : (0 < n)%nat -> lastn n (l ++ [x]) = lastn (n - 1) l ++ [x].
+Proof.
+  intros Hn. unfold lastn. rewrite app_length. cbn [length].
+  replace (length l + 1 - n)%nat with (length l - (n - 1))%nat by lia.
+  rewrite skipn_app. replace (length l - (n - 1) - length l)%nat with 0%nat by lia. reflexivity.
+Qed.
+
+Lemma aget_diag txs loc : In loc txs -> aget (map (fun x : N => (x, x)) txs) loc = Some loc.
+Proof.
+  induction txs as [|x txs IH]; [intros []|]. cbn [map aget]. intros [->|Hin]; [rewrite N.eqb_refl; reflexivity|].
+  destruct (N.eqb loc x) eqn:E; [apply N.eqb_eq in E; subst; reflexivity|apply IH; exact Hin].
+Qed.
+
+Lemma cache_finds_connected_block n (c : txindex N) (w : window N) hash txs loc c' :
+  RepW n c w -> (0 < n)%nat -> valid_op w (TConnect (cache_block hash txs)) -> In loc txs ->
+  ti_update c (cache_block hash txs) = Some c' -> ti_get c' loc <> None.
+Proof.
+  intros HR Hn Hv Hin Hu.
+  destruct (step_refines n c w (TConnect (cache_block hash txs)) HR Hv) as [t' [Hs HR']].
+  cbn [ti_step] in Hs. rewrite Hu in Hs. inversion Hs; subst t'.
+  rewrite (get_refines n c' _ loc HR'). unfold w_get. cbn [w_step w_blocks].
+  rewrite (lastn_snoc n _ _ Hn), rev_app_distr. cbn [rev List.app w_find cache_block ib_data].
+  rewrite (aget_diag txs loc Hin). discriminate.
+Qed.
+
+(* the theorem with hypotheses on the reachable state and the chain only *)
+Theorem accepted_then_watched_or_gone_refined le sc t0 u loc b txs hash h delay sig n w sched tf r :
+  In loc txs ->
+  RepW n (w_cache t0) w -> (0 < n)%nat -> valid_op w (TConnect (cache_block hash txs)) ->
+  run_sched t0 [PA sc u loc b delay sig; PC le sc txs hash h] sched = (tf, [Some (TOut (OAddRes r)); Some (TOut OBlockRes)]) ->
+  match r with AddOk _ _ _ _ => ge sc t0 u loc b tf | _ => True end.
+Proof.
+  intros Hin HR Hn Hv. apply (accepted_then_watched_or_gone le sc t0 u loc b txs Hin hash h).
+  intros c Hu. exact (cache_finds_connected_block n (w_cache t0) w hash txs loc c HR Hn Hv Hin Hu).
+Qed.
